@@ -77,12 +77,17 @@ fn generate_g(seed: u64, _quick: bool) -> Value {
     let with_libs = rng.chance(1, 2);
     let with_faults = rng.chance(1, 2);
     let mut progs = serde_json::Map::new();
-    for who in ["A", "B"] {
+    let whos: Vec<&str> = if rng.chance(1, 3) { vec!["A", "B", "C"] } else { vec!["A", "B"] };
+    for who in whos.iter().copied() {
         let sub = crate::engine_a::generate_a(rng.next_u64(), true, with_faults);
         let mut forms: Vec<Value> = vec![];
         let mut prefix: Vec<Value> = vec![];
         // libraries of the same name, different contents per instance
-        let marker = if who == "A" { 1000 } else { 2000 };
+        let marker = match who {
+            "A" => 1000,
+            "B" => 2000,
+            _ => 3000,
+        };
         let reg_text = format!(
             "(define-library (iso reg) (import (scheme base)) (export iso-reg-value iso-reg-next!) (begin (define n {m}) (define (iso-reg-value) {m}) (define (iso-reg-next!) (set! n (+ n 1)) n)))",
             m = marker
@@ -127,41 +132,41 @@ fn generate_g(seed: u64, _quick: bool) -> Value {
             json!({"forms": all, "armed": sub["armed"], "reg_text": reg_text, "file_text": file_text}),
         );
     }
-    // schedule
-    let na = progs["A"]["forms"].as_array().unwrap().len();
-    let nb = progs["B"]["forms"].as_array().unwrap().len();
-    let style = rng.upto(3); // 0 uniform, 1 bursty, 2 A completely first
+    // schedule: an instance is created right before its first form (A at the start); it may
+    // be dropped after its last form, while the others go on
+    let counts: Vec<usize> = whos.iter().map(|w| progs[*w]["forms"].as_array().unwrap().len()).collect();
+    let style = rng.upto(3); // 0 uniform, 1 bursty, 2 one program after the other
     let mut sched: Vec<Value> = vec![json!({"e": "mk", "i": "A"})];
-    let (mut ia, mut ib) = (0usize, 0usize);
-    let mut b_made = false;
+    let mut pos: Vec<usize> = vec![0; whos.len()];
+    let mut made: Vec<bool> = whos.iter().map(|w| *w == "A").collect();
     let mut burst_left = 0;
-    let mut burst_who = "A";
-    while ia < na || ib < nb {
-        let who = if style == 2 {
-            if ia < na { "A" } else { "B" }
+    let mut burst_who = 0usize;
+    let drops = rng.chance(1, 3);
+    loop {
+        let live: Vec<usize> = (0..whos.len()).filter(|i| pos[*i] < counts[*i]).collect();
+        if live.is_empty() {
+            break;
+        }
+        let pick = if style == 2 {
+            live[0]
         } else if style == 1 {
-            if burst_left == 0 {
+            if burst_left == 0 || !live.contains(&burst_who) {
                 burst_left = rng.range(1, 8);
-                burst_who = if rng.chance(1, 2) { "A" } else { "B" };
+                burst_who = *rng.pick(&live);
             }
             burst_left -= 1;
             burst_who
-        } else if rng.chance(1, 2) {
-            "A"
         } else {
-            "B"
+            *rng.pick(&live)
         };
-        let who = if who == "A" && ia >= na { "B" } else if who == "B" && ib >= nb { "A" } else { who };
-        if who == "B" && !b_made {
-            sched.push(json!({"e": "mk", "i": "B"}));
-            b_made = true;
+        if !made[pick] {
+            sched.push(json!({"e": "mk", "i": whos[pick]}));
+            made[pick] = true;
         }
-        if who == "A" {
-            sched.push(json!({"e": "f", "i": "A", "f": ia}));
-            ia += 1;
-        } else {
-            sched.push(json!({"e": "f", "i": "B", "f": ib}));
-            ib += 1;
+        sched.push(json!({"e": "f", "i": whos[pick], "f": pos[pick]}));
+        pos[pick] += 1;
+        if drops && pos[pick] == counts[pick] && rng.chance(1, 2) {
+            sched.push(json!({"e": "drop", "i": whos[pick]}));
         }
     }
     // further instance creations at random points
@@ -257,10 +262,13 @@ fn execute_g(case: &Value) -> RunResult {
             Some("mk") => {
                 made.insert(ev["i"].as_str().unwrap_or("").to_string());
             }
+            Some("drop") => {
+                made.remove(ev["i"].as_str().unwrap_or(""));
+            }
             Some("f") => {
                 let who = ev["i"].as_str().unwrap_or("").to_string();
                 if !made.contains(&who) {
-                    res.invalid = Some("form before its instance exists".into());
+                    res.invalid = Some("form for an instance that does not exist (yet, or any more)".into());
                     return res;
                 }
                 let f = ev["f"].as_u64().unwrap_or(0) as usize;
@@ -276,13 +284,14 @@ fn execute_g(case: &Value) -> RunResult {
         }
     }
     let root = crate::sandbox::fresh_dir("iso");
-    let dirs: BTreeMap<String, PathBuf> = ["A", "B"].iter().map(|w| (w.to_string(), root.join(w))).collect();
-    for w in ["A", "B"] {
+    let whos: Vec<String> = progs.as_object().map(|o| o.keys().cloned().collect()).unwrap_or_default();
+    let dirs: BTreeMap<String, PathBuf> = whos.iter().map(|w| (w.to_string(), root.join(w))).collect();
+    for w in &whos {
         write_file_lib(&dirs[w], progs[w]["file_text"].as_str().unwrap_or(""));
     }
     // solo reference runs, each on its own fresh thread
     let mut solo_results: BTreeMap<String, Vec<String>> = BTreeMap::new();
-    for w in ["A", "B"] {
+    for w in &whos {
         let p = progs[w].clone();
         let d = dirs[w].clone();
         let ix = idx.get(w).cloned().unwrap_or_default();
@@ -345,6 +354,12 @@ fn execute_g(case: &Value) -> RunResult {
                             break;
                         }
                     }
+                }
+                Some("drop") => {
+                    let w = ev["i"].as_str().unwrap_or("").to_string();
+                    insts.remove(&w);
+                    log.push(format!("{:>3} drop instance {}", step, w));
+                    *counters.entry("event.instance_dropped".into()).or_insert(0) += 1;
                 }
                 Some("new") => {
                     let got = sanity_run();
@@ -433,7 +448,11 @@ fn execute_g(case: &Value) -> RunResult {
                 }
                 s
             };
-            let common: Vec<String> = names("A").intersection(&names("B")).filter(|n| {
+            let mut all_common: BTreeSet<String> = names("A").intersection(&names("B")).cloned().collect();
+            if whos.len() > 2 {
+                all_common.extend(names("A").intersection(&names("C")).cloned());
+            }
+            let common: Vec<String> = all_common.iter().filter(|n| {
                 !matches!(n.as_str(), "define" | "lambda" | "set!" | "if" | "quote" | "cons" | "car" | "cdr" | "vector" | "import")
             }).cloned().collect();
             res.nontrivial = !common.is_empty() && a_between_b;
@@ -457,7 +476,7 @@ fn execute_g(case: &Value) -> RunResult {
         .join(",");
     res.sched_hash = fnv64(pattern.as_bytes());
     res.state_hashes.push(fnv64(format!("{:?}", solo_results).as_bytes()));
-    for w in ["A", "B"] {
+    for w in &whos {
         for i in idx.get(w).cloned().unwrap_or_default() {
             let k = progs[w]["forms"][i]["k"].as_str().unwrap_or("").to_string();
             if k.starts_with("macro") || k.starts_with("lib") || k == "fault" {
